@@ -230,6 +230,25 @@ def handleFvMerge (args : List String) : String :=
       | _, _ => "bad-op"
   | _ => "bad-op"
 
+/-- `Poplar1::unshard`: counts as integers (leaf values must fit in 64 bits) -/
+def handlePopUnshard (args : List String) : String :=
+  match args with
+  | kind :: len :: shares =>
+    withField "FP64" fun qi szi => withField "F255" fun ql szl =>
+      let dec (h : String) : Option (FieldVec (Fin (qi + 1)) (Fin (ql + 1))) :=
+        match h.splitOn ":" with
+        | ["I", x] => (hexVec qi szi x).map .inner
+        | ["L", x] => (hexVec ql szl x).map .leaf
+        | _ => none
+      match len.toNat?, (if shares == ["-"] then some [] else shares.mapM dec) with
+      | some n, some shs =>
+        match FieldVec.aggregate (kind == "L") n shs with
+        | some (.inner v) => "ok " ++ ",".intercalate (v.map fun x => toString x.val)
+        | some (.leaf v) => if v.all (fun x => x.val < 2 ^ 64) then "ok " ++ ",".intercalate (v.map fun x => toString x.val) else "err"
+        | none => "err"
+      | _, _ => "bad-op"
+  | _ => "bad-op"
+
 /-- a recorded byte tape as a stream; positions beyond the tape read as zero -/
 def tapeStream (tape : List Nat) : Stream :=
   let a := tape.toArray
@@ -1089,6 +1108,7 @@ def handle (line : String) : String :=
   | "merge" :: rest => handleMerge rest
   | "agg" :: rest => handleAgg rest
   | "fvmerge" :: rest => handleFvMerge rest
+  | "popunshard" :: rest => handlePopUnshard rest
   | "aggctor" :: rest => handleAggCtor rest
   | "aggvalid" :: rest => handleAggValid rest
   | ["unitvalid", n] => match n.toNat? with
